@@ -254,7 +254,9 @@ pub fn c12(run: &'static Run) -> (u64, u64) {
 /// C12 under schedules: tvc-sched explores every interleaving of the command loop and the search thread for
 /// scripts in which ucinewgame follows a search, and asserts that the tables are empty when ucinewgame returns.
 pub fn newgame_under_schedules(run: &Run) -> (u64, u64) {
-    under_schedules(run, "newgame")
+    let a = under_schedules(run, "newgame");
+    let b = under_schedules(run, "determinism");
+    (a.0 + b.0, a.1 + b.1)
 }
 
 /// C13 under schedules: a setoption Hash with a new value, sent while no bestmove is outstanding, must take effect
@@ -294,10 +296,16 @@ fn under_schedules(run: &Run, mode: &str) -> (u64, u64) {
             run.machinery_error(format!("schedule for [{script}] does not replay deterministically"));
             continue;
         }
-        let kind = if mode == "newgame" { "ucinewgame-not-fresh-under-schedule" } else { "setoption-not-applied-under-schedule" };
+        let kind = match mode {
+            "newgame" => "ucinewgame-not-fresh-under-schedule",
+            "determinism" => "search-depends-on-the-schedule",
+            _ => "setoption-not-applied-under-schedule",
+        };
         run.violation(kind, format!("{kind}|{}", f.get("script").and_then(|x| x.as_str()).unwrap_or("")), f.clone(), format!("[{script}] under some interleaving of the command loop and the search thread: {msg}"));
     }
-    if mode == "newgame" {
+    if mode == "determinism" {
+        run.family("E6-DETERMINISM", &format!("every well-formed script of length <= {} with at least two finite searches on the start position, every schedule with <= {} preemptions (shuttle): the info and bestmove lines equal those of the schedule without preemptions", gi("max_length"), gi("preemption_bound")), gi("executions"), gi("steps"), true, &format!("{} scripts", gi("scripts")));
+    } else if mode == "newgame" {
         run.family("E6-NEWGAME", &format!("every well-formed script of length <= {} in which a ucinewgame follows a search, every schedule with <= {} preemptions (shuttle): when ucinewgame returns the shared tables are empty", gi("max_length"), gi("preemption_bound")), gi("executions"), gi("steps"), true, &format!("{} scripts", gi("scripts")));
     } else {
         run.family("E6-SETOPTION", &format!("every well-formed script of length <= {} in which a setoption Hash (always a new value) follows a search, every schedule with <= {} preemptions (shuttle): when setoption returns the table has been replaced", gi("max_length"), gi("preemption_bound")), gi("executions"), gi("steps"), true, &format!("{} scripts", gi("scripts")));
@@ -869,6 +877,11 @@ pub fn c17(run: &Run) -> (u64, u64) {
         ("fen r3k2r/p1ppqpb1/bn2pnp1/3PN3/1p2P3/2N2Q1p/PPPBBPPP/R3K2R w KQkq -", 2 + e),
         ("fen 8/2p5/3p4/KP5r/1R3p1k/8/4P1P1/8 w - -", 3 + e),
         ("fen 4k3/8/8/8/8/8/4P3/4K2R b K - 99 60", 3 + e),
+        // en passant that re-closes the file it opens (king and enemy queen on the pushed pawn's file), and en passant by a
+        // pawn pinned on the diagonal it captures along
+        ("fen rnb1qbnr/pppkpppp/8/3P4/8/P4N2/1PPP1PPP/RNBQKB1R b KQ - 0 4", 2),
+        ("fen 1b5k/3p4/8/4P3/8/6K1/8/8 b - - 0 1", 2 + e),
+        ("fen 8/8/6k1/8/4p3/8/3P4/1B5K w - - 0 1", 2 + e),
         // optional fields omitted, Black to move
         ("fen rnbqkbnr/pppppppp/8/8/4P3/8/PPPP1PPP/RNBQKBNR b KQkq -", 3),
         ("fen rnbqkbnr/pppppppp/8/8/4P3/8/PPPP1PPP/RNBQKBNR b KQkq - 7", 2),
@@ -980,6 +993,67 @@ pub fn c17(run: &Run) -> (u64, u64) {
     });
     let a3 = n3.load(Ordering::Relaxed);
     run.family("POSITION-PAIRS", "4 roots x all ordered pairs of 6-7 ways of writing the root (counters omitted / 0 1 / 37 61 / 99 50 / 4 3 / halfmove only / startpos) x all prefix pairs k1 <= k2 <= 3 of one line: two `position` commands on one engine, the second judged", a3, a3, true, "");
+    // constellation families through the text path: every promotion of the promotion family as `position fen P moves m`,
+    // every en-passant constellation as `position fen <before the double step> moves <double step> [<en-passant capture>]`
+    let n4 = AtomicU64::new(0);
+    {
+        use crate::refchess::{self as rc, Color, Kind};
+        let quick = run.quick();
+        let mut promo_positions: Vec<Pos> = vec![];
+        crate::families::enumerate_promo(&mut |p: &Pos| {
+            let pawns = p.board.iter().filter(|x| matches!(x, Some((_, Kind::P)))).count();
+            if !quick || pawns == 1 {
+                promo_positions.push(p.clone());
+            }
+        });
+        let chunks: Vec<&[Pos]> = promo_positions.chunks(2000).collect();
+        par_for(chunks.len(), |ci| {
+            let Ok(mut d) = Drv::new(1) else { return };
+            for p in chunks[ci] {
+                let base = format!("fen {}", p.to_fen());
+                for m in p.legal_moves().into_iter().filter(|m| m.promo.is_some()) {
+                    let want = p.apply(&m);
+                    check_position_cmd(run, &mut d, &base, p, &[m], &want, false, &n4);
+                }
+            }
+        });
+        let extras: Vec<Option<crate::families::Man>> = if quick { vec![None] } else { vec![None, Some((Color::B, Kind::B)), Some((Color::B, Kind::Q)), Some((Color::B, Kind::R))] };
+        let items: Vec<(i32, Option<crate::families::Man>)> = extras.iter().flat_map(|e| (0..8).map(move |f| (f, *e))).collect();
+        par_for(items.len(), |i| {
+            let (f, extra) = items[i];
+            let Ok(mut d) = Drv::new(1) else { return };
+            crate::families::enumerate_ep(f, extra, true, !quick && extra.is_some(), &mut |p: &Pos| {
+                // p: the double step has just been played; rebuild the position before it
+                let Some(target) = p.ep else { return };
+                let pusher = p.side.other();
+                let (to, from) = if pusher == Color::B { (target - 8, target + 8) } else { (target + 8, target - 8) };
+                let mut before = p.clone();
+                before.board[from as usize] = before.board[to as usize].take();
+                before.side = pusher;
+                before.ep = None;
+                before.halfmove = 3;
+                if pusher == Color::B {
+                    // (p is then White's move with the same move number)
+                } else {
+                    before.fullmove = p.fullmove.max(2) - 1;
+                }
+                if !before.is_legal_position() {
+                    return;
+                }
+                let Some(push) = before.legal_moves().into_iter().find(|m| m.from == from && m.to == to) else { return };
+                let after = before.apply(&push);
+                let base = format!("fen {}", before.to_fen());
+                check_position_cmd(run, &mut d, &base, &before, &[push], &after, false, &n4);
+                for m in after.legal_moves().into_iter().filter(|m| m.ep) {
+                    let want = after.apply(&m);
+                    check_position_cmd(run, &mut d, &base, &before, &[push, m], &want, false, &n4);
+                }
+                let _ = rc::WK;
+            });
+        });
+    }
+    let a4 = n4.load(Ordering::Relaxed);
+    run.family("POSITION-FAMILIES", &format!("every promotion of the promotion family ({}) and every en-passant constellation ({}) sent as `position fen .. moves ..` (the double step and the capture played through the text path)", if run.quick() { "one pawn" } else { "one or two pawns" }, if run.quick() { "no further man" } else { "no further man / a further enemy bishop, queen or rook on a line through the pawns" }), a4, a4, true, "");
     // long deterministic games, every prefix
     let n2 = AtomicU64::new(0);
     let policies = ["first", "last", "middle", "capture-first"];
@@ -1011,7 +1085,7 @@ pub fn c17(run: &Run) -> (u64, u64) {
     let b = n2.load(Ordering::Relaxed);
     run.family("POSITION-LONG-GAMES", &format!("8 deterministic games (policies first / last / middle / capture-first x 2 starts) of up to {plies} plies, the position command sent at every prefix length"), b, b, true, "");
     run.sample(J::obj(vec![("line", J::s("position fen r3k2r/1P4P1/8/8/8/8/1p4p1/R3K2R w KQkq - 0 1 moves b7a8n b2a1q e1g1"))]));
-    (a + b + a3, a + b + a3)
+    (a + b + a3 + a4, a + b + a3 + a4)
 }
 
 pub fn replay_position(run: &Run, case: &J) {
